@@ -205,14 +205,15 @@ class Universe:
             aar = ch.mkeffect(effect_id=int(EffectId.fueled_armor_repair), category_id=EffectCategoryId.active)
             ab = ch.mkeffect(effect_id=int(EffectId.module_bonus_afterburner), category_id=EffectCategoryId.active)
             mwd = ch.mkeffect(effect_id=int(EffectId.module_bonus_microwarpdrive), category_id=EffectCategoryId.active)
-            for eff in (aar, aar, ab, mwd):
+            for k, eff in enumerate((aar, aar, ab, mwd)):
                 extra = rnd.sample(self.effects, rnd.randint(0, 2))
                 attrs = {int(AttrId.armor_dmg_amount): rnd.choice([50, 100]),
                          int(AttrId.charged_armor_dmg_mult): rnd.choice([2, 3]),
                          int(AttrId.speed_factor): rnd.choice([100, 500]),
                          int(AttrId.speed_boost_factor): rnd.choice([1000, 1500])}
-                t = ch.mktype(group_id=rnd.choice(self.groups), category_id=TypeCategoryId.module, attrs=attrs,
-                              effects=[eff, self.online] + extra, default_effect=eff)
+                # fixed ids: the same id must not denote another item class in another source
+                t = ch.mktype(type_id=9101 + k, group_id=rnd.choice(self.groups), category_id=TypeCategoryId.module,
+                              attrs=attrs, effects=[eff, self.online] + extra, default_effect=eff)
                 self.types.setdefault('mm', []).append(t.id)
                 self.types.setdefault('mm_py', []).append(t.id)
             paste = ch.mktype(type_id=int(_T.nanite_repair_paste), category_id=TypeCategoryId.charge,
